@@ -144,8 +144,21 @@ fn plan(seeds: &[u16]) -> Plan {
             let l = 2 + s.pick(2);
             prefix.push((0, "JOIN #lim".into()));
             prefix.push((0, format!("MODE #lim +l {}", l)));
+            // (sometimes the racers hold invitations, or are invited during the burst: an
+            // invitation never lifts the limit)
+            let invited = s.chance(40);
+            if invited {
+                for c in 1..4 {
+                    if s.chance(70) {
+                        prefix.push((0, format!("INVITE n{} #lim", c)));
+                    }
+                }
+            }
             for c in 1..4 {
                 per_conn.push((c, vec!["JOIN #lim".into()]));
+            }
+            if invited && s.chance(50) {
+                per_conn.push((0, vec!["INVITE n3 #lim".into()]));
             }
             limit = Some(("#lim".to_string(), l));
             "limit-race"
